@@ -73,3 +73,11 @@ func (t *Tunnel) Read() (pt int, size int, pkt []byte, err error) {
 
 	return pt, size, pkt, err
 }
+
+// closeBackend closes the connection to the remote desktop server, if any. This
+// also ends the goroutine forwarding data from it.
+func (t *Tunnel) closeBackend() {
+	if t.rwc != nil {
+		t.rwc.Close()
+	}
+}
